@@ -70,7 +70,9 @@ def role_of(kind: str) -> str:
 
 def render(sym) -> str:
     kind, indent = sym
-    return " " * indent + KIND_TEXT[kind]
+    # indent 1 stands for one tab, indent 3 for two spaces and a tab (their lengths): never a valid indentation
+    lead = "\t" if indent == 1 else "  \t" if indent == 3 else " " * indent
+    return lead + KIND_TEXT[kind]
 
 
 def full_alphabet() -> list[tuple[str, int]]:
@@ -81,6 +83,7 @@ def full_alphabet() -> list[tuple[str, int]]:
             out.append((kind, ind))
         if ind:
             out.append(("spaces", ind))
+    out += [("Mark", 1), ("Block", 1), ("Mark", 3)]          # indented with a tab / two spaces and a tab
     return out
 
 
@@ -93,12 +96,13 @@ def reduced_alphabet() -> list[tuple[str, int]]:
     out += [("Macro", 0), ("End block", 4)]
     out += [("comment", i) for i in (0, 4, 8)]
     out += [("spaces", 4)]
+    out += [("Mark", 1), ("Mark", 3)]          # indented with a tab / two spaces and a tab
     return out
 
 
 def mini_alphabet() -> list[tuple[str, int]]:
-    """8 lines for 5-line texts in the quick tier: two nested bodies, leaves and comments at the three levels."""
-    return [("Block", 0), ("Watch", 4), ("Mark", 8), ("Mark", 4), ("comment", 4), ("comment", 8), ("End block", 4), ("Mark", 0)]
+    """9 lines for 5-line texts in the quick tier: two nested bodies, leaves and comments at the three levels."""
+    return [("Block", 0), ("Watch", 4), ("Mark", 8), ("Mark", 4), ("comment", 4), ("comment", 8), ("End block", 4), ("Mark", 0), ("Mark", 1)]
 
 
 ALPHABETS = {"full": full_alphabet(), "reduced": reduced_alphabet(), "mini": mini_alphabet()}
